@@ -154,6 +154,120 @@ def exec_d_rows(prog, E, rx, is_container):
     return rows
 
 
+def _element_of(v, is_container):
+    """(collection value, projection) if v is (a projection of) the element of an iteration over the container — through
+    borrows, `.iter()`-like sources, order/element preserving adapters and an intermediate collected (sorted) Vec"""
+    from . import layer_env_common as L
+    coll, proj = L.loop_element(v)
+    if coll is None:
+        return None, None
+    c = coll
+    for _ in range(10):
+        c = strip(c)
+        if is_container(c):
+            return coll, proj
+        if c[0] == 'call' and c[2] and (iters._is_source(c[1]) or c[1] in iters.SAME or c[1] in iters.COLLECTING
+                                        or c[1].endswith('IntoIterator::into_iter')):
+            c = c[2][0]
+            continue
+        break
+    return None, None
+
+
+def process_scope_rows(prog, E, f, is_container, root):
+    """The triage basis of the process scopes, stated on the *effects* of write_to_layer_dir and on which data an
+    effect ranges over — not on where the `entries` map of a delta is read:
+    a file WRITE "belongs to a process scope" iff its path or its data is computed from the *value* (`.1`) of an element
+    of an iteration over the container (the per-process delta: directly, through `.entries`, or handed to a private
+    helper that plans the files of a delta — `planned_env_files(delta)`);
+    it is fine iff its directory is <root>/<literal components>/<key (`.0`) of the same element>.
+    -> [(effect, dirs | None, why)]: dirs = literal components + ('<key>',)"""
+    from . import layer_env_common as L
+    rows = []
+    for e in E.expand(f, 'may'):
+        if e.kind != 'WRITE':
+            continue
+        colls = []
+        for v in ((e.path,) if e.path is not None else ()) + tuple(e.args or ()):
+            for x in walk(v):
+                if x[0] != 'field':
+                    continue
+                coll, proj = _element_of(x, is_container)
+                if coll is not None and proj[:1] == ('1',) and coll not in colls:
+                    colls.append(coll)
+        if not colls:
+            continue
+        if e.path is None:
+            rows.append((e, None, 'no destination path'))
+            continue
+        if len(colls) > 1:
+            rows.append((e, None, 'data of two different iterations over the container in one file'))
+            continue
+        cs = L.comps(e.path, root)
+        if cs is None:
+            cs = L.comps(E.slicer.inline_deep(e.path), root)
+        if cs is None or len(cs) < 2:
+            rows.append((e, None, 'destination is not a file in a directory below the layer directory: ' + vstr(e.path)[:100]))
+            continue
+        dirs = cs[:-1]
+        last = dirs[-1]
+        kc, kp = (None, None) if isinstance(last, str) else _element_of(last, is_container)
+        if kc is None or kc != colls[0] or kp != ('0',):
+            rows.append((e, None, 'directory is not named by the key of the element whose delta is written: ' + vstr(e.path)[:100]))
+            continue
+        if not all(isinstance(d, str) for d in dirs[:-1]):
+            rows.append((e, None, 'directory above the key is not literal: ' + vstr(e.path)[:100]))
+            continue
+        rows.append((e, dirs[:-1] + ('<key>',), ''))
+    return rows
+
+
+def created_file_data(prog, E, e):
+    """What is written into the file created by effect e (`File::create(p)`), when lib/effects.py could not attach it
+    as one value: every value handed to a call together with the handle — `write_all(handle, data)` in the creating
+    function, in a closure a combinator runs on the creation result (`File::create(p).and_then(|mut f| f.write_all(data))`,
+    the closure applied to the result), `write!(handle, ..)`, `to_writer(handle, value)` — in the terms of the entry
+    function of the expansion.  -> (values, reason it is not decided | None): not decided when the handle leaves the
+    function that creates it (returned, or handed to a workspace function: its writes are not followed); no values =
+    the file is created empty"""
+    sl = E.slicer
+    g = e.call.fn
+    site = (g.path, e.call.bb)
+
+    def derives(v):
+        return isinstance(v, tuple) and any(x[0] == 'call' and len(x) == 4 and x[3] == site for x in walk(v))
+
+    data = []
+    for c in g.calls:
+        if c is e.call or not c.args:
+            continue
+        vals = [sl.operand(g, a) for a in c.args]
+        idx = [i for i, v in enumerate(vals) if derives(v)]
+        if not idx:
+            continue
+        if not c.indirect and any(h.crate in CRATES and h.kind != 'Closure' for h in prog.callee_fns(c)):
+            return [], 'the file handle is handed to %s' % (c.name or '?')
+        for i, v in enumerate(vals):
+            if i in idx:
+                continue
+            if isinstance(v, tuple) and v and v[0] == 'closure':
+                # a combinator running the closure on the (success payload of the) creation result
+                av = sl.apply_closure(v, (vals[idx[0]],))
+                for x in walk(av) if isinstance(av, tuple) else ():
+                    if x[0] == 'call' and x[2] and derives(x[2][0]):
+                        data.extend(a for a in x[2][1:] if isinstance(a, tuple))
+                # what the closure captured is part of what it can write
+                data.append(v)
+            elif isinstance(v, tuple):
+                data.append(v)
+    if 'fs::File' in (g.ret or ''):
+        return [], 'the file handle is returned by %s' % g.path.split('::')[-1]
+    m = getattr(e, 'mapping', None)
+    if m:
+        data = [E.subst(v, m) for v in data]
+    return data, None
+
+
 # ======================================================================================================================
 # deepening round: obligations that do not depend on how a hash container is consumed / which clock is read
 # ======================================================================================================================
